@@ -221,7 +221,7 @@ class C37(Check):
                 toks = ["0r%d" % p for p in range(1, ahead + 1)]
                 for p in range(1, behind + 1):
                     toks += ["1r%d" % p, "1g%d" % p]
-                toks += ["S", "0r9000", "1r9000", "1g9000", "0g9000"]
+                toks += ["S", "1l%d" % max(1, ahead), "0r9000", "1r9000", "1g9000", "0g9000"]
                 toks += self._dump(1, behind + 2) + ["1l%d" % (ahead + 1), "0l%d" % (ahead + 1), "1l%d" % ahead]
                 toks += ["S", "1r9001", "0r9001"]
                 out.append("sys 2 : " + " ".join(toks))
